@@ -48,6 +48,18 @@ def runModel (line : String) : String :=
       else "bad-op"
   | _ => "bad-op"
 
+/-- `h FLAGS LIMIT HEX(tag),...`: only `compress (sort (@tags))` — the header of one group (used for
+very large groups, where the association lists of `process_lines` make the full model slow) -/
+def runHeader (line : String) : Option String :=
+  match Driver.words line with
+  | ["h", rep, slim, tags] => do
+    let tags ← unhxs tags
+    let flags := rep.toNat?.getD 0
+    let lim : Option Nat := match slim.toNat? with | some 0 => none | some m => some m | none => none
+    let gs := compressV lim (flags / 2 % 2 = 1) (strSort tags)
+    pure (hxs (gs.map fun g => renderHeader [g]) ++ "=" ++ toString (hostsOf gs).length)
+  | _ => none
+
 def parseRecs (s : String) : Option (List (Str × Str)) :=
   if s = "~" then some [] else
   (s.splitOn ",").mapM fun r =>
@@ -79,7 +91,7 @@ def runSpec (line : String) : String :=
 def main (args : List String) : IO UInt32 := do
   let stdin ← IO.getStdin
   match args with
-  | ["model"] => Driver.forLines stdin () (fun _ l => ((), runModel l)); return 0
+  | ["model"] => Driver.forLines stdin () (fun _ l => ((), (runHeader l).getD (runModel l))); return 0
   | ["spec"] => Driver.forLines stdin () (fun _ l => ((), runSpec l)); return 0
   | _ => IO.eprintln "usage: pdshmodel dshbak model|spec"; return 2
 
